@@ -159,7 +159,7 @@ def run_case(ctx):
 
 
 def run(ctx):
-    n = ctx.n(150, 600)
+    n = ctx.n(150, 4000)
     for it in range(n):
         if ctx.out_of_time():
             ctx.notes.append(f'time budget reached after {it} cases')
